@@ -15,7 +15,7 @@ META = dict(
               "(0,2): limit / stop-limit orders over 2 bars with volumes {10, 127.83333333} and market / stop orders "
               "over 1 bar with volumes {10, 127.83333333, 100000}, amount from {3, 1, 1000} (slippage is cubic in amount "
               "and price otherwise), prices symbolic; percentage fee with minimum; completeness clause with ample funds "
-              "(1e15 of every symbol) under infinite liquidity",
+              "(1e15 of every symbol) under infinite liquidity, bar volumes from {0, 1000}",
         thorough="adds VolumeShareImpact at (8,2) and with volumes {0, 1, 33.33333333, 100000}, fee scheme none, "
                  "precisions (2,0),(8,8), 3 bars"),
     stubs=[s for s in hist.BASE_STUBS if "max/min" not in s] + ["max/min are NOT merged in this check (plain forks keep "
@@ -171,6 +171,6 @@ def jobs(tier):
     for kind in ("market", "limit", "stop"):
         for side in ("buy", "sell"):
             js.append(Job("completeness %s %s" % (kind, side), "one_order",
-                          dict(kind=kind, side=side, nbars=2, ample=True, bp=8, qp=2), validate_every=20,
-                          sample_every=50, prove_timeout=30000))
+                          dict(kind=kind, side=side, nbars=2, ample=True, bp=8, qp=2, vols=["0", "1000"]),
+                          validate_every=20, sample_every=50, prove_timeout=30000))
     return js
